@@ -510,7 +510,11 @@ pub fn run_worker(prop: &dyn Property, known: &Known, wa: &WorkerArgs) -> i32 {
     let strategy = prop.strategy(wa.tier);
 
     let eval = |case: &Case| -> Verdict {
-        match prop.check(case) {
+        let verdict = match catch(|| prop.check(case)) {
+            Ok(v) => v,
+            Err(p) => Err(format!("operation panicked outside a documented failure case: {}", p)),
+        };
+        match verdict {
             Ok(i) => Ok(i),
             Err(msg) => {
                 let sig = prop.signature(case, &msg);
